@@ -356,7 +356,7 @@ class MTVRPEnv(RL4COEnvBase):
                 used_cap = used_cap * (actions[:, ii] != 0)
                 used_cap += demand[:, ii]
                 assert (
-                    used_cap <= td["vehicle_capacity"]
+                    used_cap <= td["vehicle_capacity"].squeeze(-1)
                 ).all(), "Used more than capacity for {}: {}".format(feature, used_cap)
 
         _check_c1("demand_linehaul")
